@@ -598,6 +598,8 @@ pub fn c18(args: &Args, rep: &mut Report) {
     let lv = levels();
     // (a) interleavings of complete operation sequences on disjoint instances
     let combos: Vec<Vec<usize>> = if t { vec![vec![0, 1], vec![1, 2], vec![2, 3], vec![0, 3], vec![1, 1], vec![4, 5, 3], vec![0, 1, 2], vec![1, 2, 3], vec![3, 3, 0], vec![6, 7], vec![6, 6], vec![6, 2], vec![6, 7, 2]] } else { vec![vec![0, 1], vec![1, 2], vec![2, 3], vec![1, 1], vec![6, 7], vec![6, 6], vec![4, 5, 3], vec![5, 5, 4]] };
+    // thorough tier: a first pass gives every model its bound-1 exploration before any model is escalated
+    for bound1_pass in (if t { vec![true, false] } else { vec![false] }) {
     for (li, (lname, _)) in lv.iter().enumerate() {
         if !t && !(li == 0 || li == lv.len() - 1) {
             continue;
@@ -618,7 +620,7 @@ pub fn c18(args: &Args, rep: &mut Report) {
             let (c2, d2, s2, ln) = (combo.clone(), data.clone(), solo.clone(), lname.clone());
             let bound = if combo.len() == 3 { 2 } else if t { 3 } else { 2 };
             crate::set_current(&format!("Rust crate at {}, threads running operation sequences {:?} on their own instances", lname, combo));
-            let n = crate::explore_iterative(bound, if t { None } else { Some(110) }, 50_000, move || {
+            let n = crate::explore_iterative(if bound1_pass { 1 } else { bound }, if !t { Some(110) } else if combo.len() == 3 { Some(300) } else { None }, 50_000, move || {
                 let mut hs = vec![];
                 for (slot, &w) in c2.iter().enumerate() {
                     let (d3, s3, ln3, c3) = (d2.clone(), s2.clone(), ln.clone(), c2.clone());
@@ -643,6 +645,7 @@ pub fn c18(args: &Args, rep: &mut Report) {
             let (a, b, e, cu) = sizes();
             rep.sample(json!({"side": "rust", "level": lname, "threads": [["Hasher::new", format!("update_reader({})", a), format!("io::copy({})", b - a), "finalize", "count"], ["Hasher::new_keyed", format!("update_reader({})", e - 100), "finalize_xof", "set_position(2^38-64)", "fill(200)", "clone", format!("update({})", cu), "finalize"]], "preemption_bounds": "1, then 2 (3 thorough) if small at bound 1"}));
         }
+    }
     }
     LEVEL.store(usize::MAX, Ordering::SeqCst);
     // (b) every detect() call may answer any level up to the best: all answer sequences with <= 2 deviations
